@@ -64,6 +64,7 @@ def plan(tier, seed, kf_ids):
     for k in kf_ids:
         jobs.append(Job("kfw_" + k, "", "witness of known finding %s (concrete operands)" % k, timeout=300, kf=k,
                         inst="witness", bounds="concrete operands"))
+    c.interleave(jobs)
     return {
         "feature": "c07",
         "jobs": jobs,
